@@ -43,3 +43,271 @@ Proof.
   induction (rc_layout r) as [|[f w] l IH]; cbn [flat_map fold_right snd fst]; auto.
   rewrite app_length, le_enc_length, IH. reflexivity.
 Qed.
+
+From Dnp3V Require Import App.FloatBitsProofs.
+
+(* ---- flag octets -------------------------------------------------------------------------------- *)
+Lemma flag_octet_facts_check :
+  forallb (fun f => (N.lor f 32 <? 256) && (N.lor f 32 =? (if N.testbit f 5 then f else f + 32)) &&
+                    (N.ldiff f 128 =? f mod 128) && (N.ldiff f 192 =? f mod 64)) (nrange 256) = true.
+Proof. vm_compute. reflexivity. Qed.
+
+Lemma flag_octet_facts f : f < 256 ->
+  with_over_range f < 256 /\ with_over_range f = (if N.testbit f 5 then f else f + 32) /\
+  without f 128 = f mod 128 /\ without f 192 = f mod 64.
+Proof.
+  intros Hf. pose proof (forallb_nrange' _ 256%nat flag_octet_facts_check f Hf) as H. cbv beta in H.
+  apply andb_true_iff in H. destruct H as [H H4]. apply andb_true_iff in H. destruct H as [H H3].
+  apply andb_true_iff in H. destruct H as [H1 H2].
+  apply N.ltb_lt in H1. apply N.eqb_eq in H2. apply N.eqb_eq in H3. apply N.eqb_eq in H4.
+  unfold with_over_range, without, over_range_mask. auto.
+Qed.
+
+(* ---- AnalogConversions: shape of the results ------------------------------------------------------ *)
+Lemma fb64_to_int_range lo hi b : (lo <= hi)%Z -> (lo <= 0 <= hi)%Z -> (lo <= fb64_to_int lo hi b <= hi)%Z.
+Proof.
+  intros H1 H2. unfold fb64_to_int.
+  destruct (fb64_is_nan b); [lia|]. destruct (fb64_is_inf b); [destruct (fb64_sign b =? 0); lia|]. lia.
+Qed.
+
+Lemma conv_int_shape gs lo hi lob hib m : (lo <= 0 <= hi)%Z -> cm_flags m < 256 ->
+  fst (conv_int gs lo hi lob hib m) < 256 /\ (lo <= snd (conv_int gs lo hi lob hib m) <= hi)%Z.
+Proof.
+  intros Hr Hf. unfold conv_int.
+  destruct (first_guard gs lob hib (cm_value m)) as [s|]; cbn [fst snd].
+  - split; [apply flag_octet_facts, Hf|]. destruct s; lia.
+  - split; [exact Hf|]. apply fb64_to_int_range; lia.
+Qed.
+
+Lemma to_i16_shape m : cm_flags m < 256 -> fst (to_i16 m) < 256 /\ (-32768 <= snd (to_i16 m) <= 32767)%Z.
+Proof. intros H. apply (conv_int_shape to_i16_guards i16_min i16_max); [unfold i16_min, i16_max; lia|exact H]. Qed.
+
+Lemma to_i32_shape m : cm_flags m < 256 -> fst (to_i32 m) < 256 /\ (-2147483648 <= snd (to_i32 m) <= 2147483647)%Z.
+Proof. intros H. apply (conv_int_shape to_i32_guards i32_min i32_max); [unfold i32_min, i32_max; lia|exact H]. Qed.
+
+Lemma to_f32_shape m : cm_flags m < 256 -> fst (to_f32 m) < 256 /\ snd (to_f32 m) < p32.
+Proof.
+  intros Hf. unfold to_f32.
+  destruct (first_guard to_f32_guards fb64_f32_min fb64_f32_max (cm_value m)) as [s|]; cbn [fst snd].
+  - split; [apply flag_octet_facts, Hf|]. destruct s; vm_compute; reflexivity.
+  - split; [exact Hf|apply fb64_to_f32_bound].
+Qed.
+
+Lemma twos_complement_16 z : (-32768 <= z <= 32767)%Z -> u_to_z 16 (z_to_u 16 z mod 65536) = z.
+Proof.
+  intros H. unfold u_to_z, z_to_u. change (2 ^ 16) with 65536. change (2 ^ (16 - 1)) with 32768.
+  destruct (Z.to_N (z mod Z.of_N 65536) mod 65536 <? 32768) eqn:E; [apply N.ltb_lt in E|apply N.ltb_ge in E]; lia.
+Qed.
+
+Lemma twos_complement_32 z : (-2147483648 <= z <= 2147483647)%Z -> u_to_z 32 (z_to_u 32 z mod 4294967296) = z.
+Proof.
+  intros H. unfold u_to_z, z_to_u. change (2 ^ 32) with 4294967296. change (2 ^ (32 - 1)) with 2147483648.
+  destruct (Z.to_N (z mod Z.of_N 4294967296) mod 4294967296 <? 2147483648) eqn:E; [apply N.ltb_lt in E|apply N.ltb_ge in E]; lia.
+Qed.
+
+(* ---- one object: encode then decode ------------------------------------------------------------------ *)
+Local Arguments N.modulo : simpl never.
+Local Arguments N.div : simpl never.
+Local Arguments N.add : simpl never.
+Local Arguments N.mul : simpl never.
+Local Arguments N.sub : simpl never.
+Local Arguments N.ltb : simpl never.
+Local Arguments N.eqb : simpl never.
+Local Arguments N.leb : simpl never.
+Local Opaque to_i16 to_i32 to_f32 fb64_of_Z fb32_to_f64 u_to_z z_to_u.
+Local Arguments wire_flags : simpl never.
+Local Arguments cto_add : simpl never.
+Local Arguments time_stamp : simpl never.
+
+Lemma decode_fields_encode r m d :
+  read_fields (rc_layout r) (encode_obj r m d)
+  = map (fun fw => (fst fw, snd fw, field_value r m d (fst fw) mod 256 ^ N.of_nat (wwidth (snd fw)))) (rc_layout r).
+Proof.
+  unfold encode_obj. rewrite <- (app_nil_r (flat_map _ _)).
+  apply (read_fields_encode (rc_layout r) (field_value r m d) []).
+Qed.
+
+
+Ltac trip_component Hv Hf Ht :=
+  first
+    [ reflexivity
+    | rewrite twos_complement_16 by (apply to_i16_shape; exact Hf); reflexivity
+    | rewrite twos_complement_32 by (apply to_i32_shape; exact Hf); reflexivity
+    | rewrite N.mod_small by (apply to_f32_shape; exact Hf); reflexivity
+    | rewrite (N.mod_small _ 65536) by assumption; reflexivity
+    | match goal with
+      | |- context [to_i16 ?m] => pose proof (to_i16_shape m Hf)
+      | |- context [to_i32 ?m] => pose proof (to_i32_shape m Hf)
+      | |- context [to_f32 ?m] => pose proof (to_f32_shape m Hf)
+      | _ => idtac
+      end;
+      unfold wire_flags, time_stamp, timestamp_max, online_flags, wf_time, p64 in *;
+      cbn [wire_flags_of] in *;
+      repeat match goal with |- Some _ = Some _ => f_equal | |- (_, _) = (_, _) => f_equal end;
+      repeat match goal with H : context [match ?x with _ => _ end] |- _ => destruct x as [[? ?]|] end;
+      unfold timestamp_max in *;
+      try reflexivity; lia ].
+
+Theorem trip_general r m cto d : In r recipes -> wf_meas (rc_type r) m -> d < 65536 ->
+  decode_obj r cto (encode_obj r m d) = narrowed r m cto d.
+Proof.
+  intros Hin Hwf Hd. unfold decode_obj. rewrite decode_fields_encode.
+  unfold narrowed, narrowed_value, narrowed_flags, narrowed_time.
+  destruct Hwf as (Hv & Hf & Ht & Hb).
+  unfold recipes in Hin. cbn [In] in Hin.
+  repeat (destruct Hin as [<-|Hin]; [cbn in *; f_equal; trip_component Hv Hf Ht|]).
+  contradiction.
+Qed.
+
+(* ---- the conversion helpers: what they do to every f64 pattern ------------------------------------ *)
+(* to_i16 / to_i32 / to_f32 against the guard lists generated from app/measurement.rs: NaN and values
+   outside the target type are flagged OVER_RANGE and replaced by 0 / the bound; everything else keeps
+   its flags and is truncated (rounded for f32) WITHOUT clamping *)
+Theorem to_i16_spec m :
+  let v := cm_value m in
+  (fb64_is_nan v = true -> to_i16 m = (with_over_range (cm_flags m), 0%Z)) /\
+  (fb64_is_nan v = false -> fb64_lt v fb64_i16_min = true -> to_i16 m = (with_over_range (cm_flags m), i16_min)) /\
+  (fb64_is_nan v = false -> fb64_lt v fb64_i16_min = false -> fb64_gt v fb64_i16_max = true ->
+     to_i16 m = (with_over_range (cm_flags m), i16_max)) /\
+  (fb64_is_nan v = false -> fb64_lt v fb64_i16_min = false -> fb64_gt v fb64_i16_max = false ->
+     to_i16 m = (cm_flags m, fb64_trunc v) /\ (i16_min <= fb64_trunc v <= i16_max)%Z).
+Proof.
+  Local Transparent to_i16.
+  cbv zeta. unfold to_i16, conv_int, to_i16_guards. cbn [first_guard guard_fires].
+  repeat split; intros; repeat match goal with H : _ = _ |- _ => rewrite H end; try reflexivity.
+  - destruct (unguarded_i16 (cm_value m)) as [Hi Hr]; auto.
+    unfold fb64_to_int. repeat match goal with H : _ = _ |- _ => rewrite H end.
+    f_equal. unfold i16_min, i16_max. lia.
+  - destruct (unguarded_i16 (cm_value m)) as [Hi Hr]; auto. unfold i16_min. lia.
+  - destruct (unguarded_i16 (cm_value m)) as [Hi Hr]; auto. unfold i16_max. lia.
+Qed.
+
+Theorem to_i32_spec m :
+  let v := cm_value m in
+  (fb64_is_nan v = true -> to_i32 m = (with_over_range (cm_flags m), 0%Z)) /\
+  (fb64_is_nan v = false -> fb64_lt v fb64_i32_min = true -> to_i32 m = (with_over_range (cm_flags m), i32_min)) /\
+  (fb64_is_nan v = false -> fb64_lt v fb64_i32_min = false -> fb64_gt v fb64_i32_max = true ->
+     to_i32 m = (with_over_range (cm_flags m), i32_max)) /\
+  (fb64_is_nan v = false -> fb64_lt v fb64_i32_min = false -> fb64_gt v fb64_i32_max = false ->
+     to_i32 m = (cm_flags m, fb64_trunc v) /\ (i32_min <= fb64_trunc v <= i32_max)%Z).
+Proof.
+  Local Transparent to_i32.
+  cbv zeta. unfold to_i32, conv_int, to_i32_guards. cbn [first_guard guard_fires].
+  repeat split; intros; repeat match goal with H : _ = _ |- _ => rewrite H end; try reflexivity.
+  - destruct (unguarded_i32 (cm_value m)) as [Hi Hr]; auto.
+    unfold fb64_to_int. repeat match goal with H : _ = _ |- _ => rewrite H end.
+    f_equal. unfold i32_min, i32_max. lia.
+  - destruct (unguarded_i32 (cm_value m)) as [Hi Hr]; auto. unfold i32_min. lia.
+  - destruct (unguarded_i32 (cm_value m)) as [Hi Hr]; auto. unfold i32_max. lia.
+Qed.
+
+(* to_f32: NaN stays NaN with its flags (an f32 can carry it); beyond +-f32::MAX (infinities included)
+   the value becomes +-f32::MAX and is flagged; otherwise it is rounded to a finite f32 of the same sign *)
+Theorem to_f32_spec m :
+  let v := cm_value m in
+  (fb64_is_nan v = true -> to_f32 m = (cm_flags m, fb64_to_f32 v) /\ fb32_is_nan (fb64_to_f32 v) = true) /\
+  (fb64_is_nan v = false -> fb64_lt v fb64_f32_min = true -> to_f32 m = (with_over_range (cm_flags m), fb32_min_bits)) /\
+  (fb64_is_nan v = false -> fb64_lt v fb64_f32_min = false -> fb64_gt v fb64_f32_max = true ->
+     to_f32 m = (with_over_range (cm_flags m), fb32_max_bits)) /\
+  (fb64_is_nan v = false -> fb64_lt v fb64_f32_min = false -> fb64_gt v fb64_f32_max = false ->
+     to_f32 m = (cm_flags m, fb64_to_f32 v) /\ fb32_exp (fb64_to_f32 v) < 255 /\
+     fb32_sign (fb64_to_f32 v) = fb64_sign v).
+Proof.
+  Local Transparent to_f32.
+  cbv zeta. unfold to_f32, to_f32_guards. cbn [first_guard guard_fires].
+  assert (Hnn : forall v, fb64_is_nan v = true -> fb64_lt v fb64_f32_min = false /\ fb64_gt v fb64_f32_max = false).
+  { intros v H. unfold fb64_gt, fb64_lt. rewrite H. cbn [negb andb]. rewrite andb_false_r. auto. }
+  repeat split; intros; repeat match goal with H : _ = _ |- _ => rewrite H end; try reflexivity.
+  - destruct (Hnn _ H) as [H1 H2]. rewrite H1, H2. reflexivity.
+  - unfold fb64_to_f32. rewrite H.
+    assert (Hl : N.lor fb32_quiet (fb64_mant (cm_value m) / p29) < 2 ^ 23).
+    { apply lor_lt_pow2; [vm_compute; reflexivity|]. unfold fb64_mant, p52, p29. change (2 ^ 23) with 8388608. lia. }
+    assert (Hq : N.lor fb32_quiet (fb64_mant (cm_value m) / p29) <> 0).
+    { intros E. apply N.lor_eq_0_l in E. discriminate E. }
+    change (2 ^ 23) with 8388608 in Hl.
+    pose proof (fb64_sign_lt2 (cm_value m)).
+    unfold fb32_is_nan, fb32_exp, fb32_mant, fb32_inf_mag, p31, p23 in *.
+    apply andb_true_iff. split; [apply N.eqb_eq|apply negb_true_iff, N.eqb_neq]; lia.
+  - apply unguarded_f32; assumption.
+  - apply unguarded_f32; assumption.
+Qed.
+
+(* ---- representable measurements arrive unchanged ---------------------------------------------------- *)
+Lemma to_i16_exact m z : (i16_min <= z <= i16_max)%Z -> cm_value m = fb64_of_Z z -> to_i16 m = (cm_flags m, z).
+Proof.
+  intros Hz Hv. unfold i16_min, i16_max in Hz.
+  destruct (int_exact_i16 z Hz) as (Hn & Hl & Hg & Hc).
+  destruct (to_i16_spec m) as (_ & _ & _ & H). cbv zeta in H. rewrite Hv in H.
+  destruct (H Hn Hl Hg) as [E _]. rewrite E. f_equal.
+  unfold fb64_to_int in Hc. rewrite Hn in Hc.
+  destruct (fb64_of_Z_finite_trunc z ltac:(lia)) as (_ & Hi & Ht). exact Ht.
+Qed.
+
+Lemma to_i32_exact m z : (i32_min <= z <= i32_max)%Z -> cm_value m = fb64_of_Z z -> to_i32 m = (cm_flags m, z).
+Proof.
+  intros Hz Hv. unfold i32_min, i32_max in Hz.
+  destruct (int_exact_i32 z Hz) as (Hn & Hl & Hg & Hc).
+  destruct (to_i32_spec m) as (_ & _ & _ & H). cbv zeta in H. rewrite Hv in H.
+  destruct (H Hn Hl Hg) as [E _]. rewrite E. f_equal.
+  destruct (fb64_of_Z_finite_trunc z ltac:(lia)) as (_ & Hi & Ht). exact Ht.
+Qed.
+
+Lemma to_f32_exact m x : x < p32 -> fb32_exp x < 255 -> cm_value m = fb32_to_f64 x -> to_f32 m = (cm_flags m, x).
+Proof.
+  intros Hx He Hv.
+  destruct (f32_round_trip x Hx He) as (Hb & Hn & Hl & Hg).
+  destruct (to_f32_spec m) as (_ & _ & _ & H). cbv zeta in H. rewrite Hv in H.
+  destruct (H Hn Hl Hg) as [E _]. rewrite E, Hb. reflexivity.
+Qed.
+
+(* write_cto and Time::checked_add are inverse: the offset written under a common time of occurrence
+   gives back the absolute time and its synchronisation *)
+Lemma cto_diff_add c tm d : snd tm <= timestamp_max -> cto_diff c tm = Some d ->
+  d < 65536 /\ cto_add (Some c) d = Some tm.
+Proof.
+  destruct c as [cq ct], tm as [q t]. unfold cto_diff, cto_add, cto_max_gap, timestamp_max. cbn [fst snd].
+  intros Ht H.
+  destruct (tq_eqb q cq) eqn:Eq; cbn [negb] in H; [|discriminate].
+  destruct (t <? ct) eqn:E1; [discriminate|]. apply N.ltb_ge in E1.
+  destruct (65535 <? t - ct) eqn:E2; [discriminate|]. apply N.ltb_ge in E2.
+  injection H as <-.
+  rewrite N.mod_small by lia. split; [lia|].
+  replace (281474976710655 - ct <? t - ct) with false by (symmetry; apply N.ltb_ge; lia).
+  assert (cq = q) by (destruct q, cq; cbn in Eq; congruence). subst cq.
+  do 2 f_equal. lia.
+Qed.
+
+Theorem trip_exact r m cto d : In r recipes -> wf_meas (rc_type r) m -> representable r m -> d < 65536 ->
+  (rc_to_time r = Some ToTimeCto -> exists c, cto = Some c /\ cto_diff c (event_time m) = Some d) ->
+  decode_obj r cto (encode_obj r m d) = mk_cmeas (cm_value m) (wire_flags (rc_type r) m) (cm_time m) [].
+Proof.
+  intros Hin Hwf (Hrv & Hrf & Hrt) Hd Hcto.
+  rewrite trip_general by assumption.
+  unfold narrowed, narrowed_value, narrowed_flags, narrowed_time.
+  unfold value_representable, flags_representable, time_representable in *.
+  destruct Hwf as (Hv & Hf & Ht & Hb).
+  unfold recipes in Hin. cbn [In] in Hin.
+  repeat (destruct Hin as [<-|Hin]; [
+    cbn [rc_type rc_to_value rc_to_flags rc_to_time conv_of fst snd] in *;
+    repeat match goal with
+           | H : exists _, _ |- _ => destruct H as [? H]
+           | H : _ /\ _ |- _ => destruct H
+           end;
+    try match goal with
+        | Hc : cm_value m = fb64_of_Z ?z |- context [to_i16 m] => rewrite (to_i16_exact m z) by (try split; assumption)
+        | Hc : cm_value m = fb64_of_Z ?z |- context [to_i32 m] => rewrite (to_i32_exact m z) by (try split; assumption)
+        | Hc : cm_value m = fb32_to_f64 ?x |- context [to_f32 m] => rewrite (to_f32_exact m x) by assumption
+        end;
+    cbn [fst snd];
+    f_equal;
+    try (symmetry; assumption); try assumption; try reflexivity;
+    try (rewrite N.mod_small by assumption; reflexivity);
+    try (unfold wire_flags; cbn [wire_flags_of]; congruence);
+    try (match goal with H : cm_time m = Some (Sync, _) |- _ => rewrite H; reflexivity end);
+    try (destruct (Hcto eq_refl) as (c & -> & Hc);
+         destruct (cm_time m) as [tm|] eqn:Etm; [|congruence];
+         unfold event_time in Hc; rewrite Etm in Hc;
+         apply (cto_diff_add c tm d); [destruct tm; exact Ht|exact Hc])
+  |]).
+  contradiction.
+Qed.
